@@ -216,9 +216,16 @@ EXTRA_TOKEN_LINES = [
     ('', [(None, 'lbl'), ('opt', ':')]), ('', [(None, 'jump'), ('req', 'lbl')]),
     ('', [(None, 'jumpif'), ('opt', '('), ('opt', 'xx'), ('opt', '>'), ('opt', '1'), ('opt', ')'), ('req', 'lbl')]),
     ('', [(None, 'include'), ('req', "'a b.bare'")]), ('', [(None, 'include'), ('req', '<args.bare>')]),
-    ('', [(None, 'zz'), ('opt', '='), ('opt', "'it\\'s # not a comment'")]), ('', [(None, 'zz'), ('opt', '='), ('opt', '[a b]'), ('opt', '+'), ('opt', '1')]),
+    ('', [(None, 'zz'), ('opt', '='), ('opt', "'it\\'s # not a comment'")]), ('', [(None, 'zz'), ('opt', '='), ('opt', '['), ('opt', 'a b]'), ('opt', '+'), ('opt', '1')]),
 ] + [('', [(None, 'zz'), ('opt', '='), ('opt', "'page%sbreak'" % c), ('opt', '+'), ('opt', 'yy')]) for c in ODD] + \
     [('', [(None, '# comment with %s zz = 2' % c)]) for c in ODD[:8]]
+
+
+EXTRA_TOKEN_BLOCKS = [[ln] for ln in EXTRA_TOKEN_LINES] + [
+    [('', [(None, 'if'), ('req', '['), ('opt', 'Unit Price]'), ('opt', '*'), ('opt', '['), ('opt', 'q\\]ty]'), ('opt', ':')]),
+     ('    ', [(None, 'zz'), ('opt', '='), ('opt', '['), ('opt', 'Unit Price]')]), ('', [(None, 'endif')])],
+    [('', [(None, 'while'), ('req', 'aa'), ('opt', '<'), ('opt', '['), ('opt', 'a.b c]'), ('opt', ':')]), ('    ', [(None, 'break')]), ('', [(None, 'endwhile')])],
+]
 
 
 def render_tight(lines):
@@ -272,7 +279,7 @@ def gen_token_program(rnd, size):
     lines = gp.program_token_lines(prog)
     for _ in range(rnd.choice([0, 1, 2, 3])):
         pos = rnd.choice([0, len(lines)])
-        lines.insert(pos, rnd.choice(EXTRA_TOKEN_LINES))
+        lines[pos:pos] = rnd.choice(EXTRA_TOKEN_BLOCKS)
     return lines
 
 
